@@ -183,7 +183,8 @@ StepClient(t) == Enabled(t) /\ Head(todo[t])[1] \in {"icall", "ucall", "ccall"} 
 StepOther(t)  == Enabled(t) /\ Head(todo[t])[1] \notin {"lock", "icall", "ucall", "ccall"} /\ Apply(t)
 
 End ==
-  /\ ~ended /\ \A t \in Threads : todo[t] = <<>> /\ (ready => seen = ost)
+  /\ ~ended /\ (\A t \in Threads : todo[t] = <<>> \/ (t = CAN /\ ~ready)) /\ (ready => seen = ost)
+  /\ \A t \in Threads : ~Enabled(t)
   /\ ended' = TRUE
   /\ Emit(<<E0("End", "main", 0)>>)
   /\ actor' = OBS
@@ -199,5 +200,4 @@ ContractHoldsButN1 == viol \in {"ok", "C14_CallReturnsOutput"}
 TypeOK == /\ ost \in {"PENDING", "FINISHED", "CANCELLED"} /\ fs \subseteq Used
           /\ (done => ost # "PENDING" \/ \E t \in Threads : todo[t] # <<>>)
 View == <<cfg, impl, seen, ended, RankView(obs), viol>>
-ViewRaw == <<cfg, impl, seen, ended, obs, viol>>
 =============================================================================
